@@ -9,17 +9,19 @@
 From Coq Require Import Sorted.
 From BV Require Import Base.Prelude Engine.Dispatcher Proofs.Dispatcher Proofs.DispatchPolicy.
 
-(* (1) For every registry state and document: every callable registered for the document's kind is invoked
-   exactly once, in registration (cid) order; a raising one does not stop the others when exceptions are
-   ignored; otherwise delivery stops right after the first raising one and the emitting command raises
-   that callable's exception. *)
-Theorem C19_delivery_policy : forall r d,
-  let fs := registered r (doc_sig d) in
-  (ign r = true -> process r d = (calls_of d fs, None)) /\
-  (ign r = false -> (forall f, In f fs -> raises_on f d = false) -> process r d = (calls_of d fs, None)) /\
-  (ign r = false -> forall pre f post, fs = pre ++ f :: post ->
-     (forall g, In g pre -> raises_on g d = false) -> raises_on f d = true ->
-     process r d = (calls_of d (pre ++ [f]), Some (ExCb (fn_id f)))).
+(* (1) For every dispatcher state and document: every callable registered for the document's kind WHEN THE
+   DOCUMENT IS EMITTED is invoked exactly once, in registration (cid) order - whatever the callbacks do to
+   the subscriptions while it is being delivered (unsubscribe themselves or others, subscribe new callables);
+   a raising one does not stop the others when exceptions are ignored; otherwise delivery stops right after
+   the first raising one and the emitting command raises that callable's exception. *)
+Theorem C19_delivery_policy : forall d dc,
+  let fs := registered (reg d) (doc_sig dc) in
+  let calls := snd (fst (process d dc)) in let x := snd (process d dc) in
+  (ign (reg d) = true -> calls = calls_of dc fs /\ x = None) /\
+  (ign (reg d) = false -> (forall f, In f fs -> raises_on f dc = false) -> calls = calls_of dc fs /\ x = None) /\
+  (ign (reg d) = false -> forall pre f post, fs = pre ++ f :: post ->
+     (forall g, In g pre -> raises_on g dc = false) -> raises_on f dc = true ->
+     calls = calls_of dc (pre ++ [f]) /\ x = Some (ExCb (fn_id f))).
 Proof. exact delivery_policy. Qed.
 Print Assumptions C19_delivery_policy.
 
@@ -91,4 +93,26 @@ Example C19_nonvacuous_ignore :
            E (DEvent 0 2) [(0, false); (1, true); (2, false)];
            E (DEvent 0 3) [(0, false); (1, false); (2, false)];
            E (DStop 0 true) [(0, false); (1, false); (2, false)]] [] Done.
+Proof. split; vm_compute; reflexivity. Qed.
+
+(* Non-vacuity with callbacks that change the subscriptions during delivery: callable 1 is a one-shot that
+   unsubscribes its own token (1) on the first event; callable 0 on the start document unsubscribes token 2
+   and subscribes callable 3.  Snapshot semantics: 2 still gets the start document and nothing after it, 3 gets
+   everything after the start document, 1 gets the first event and nothing after it; the plan completes. *)
+Definition C19_example_mutating : list op :=
+  let a := mk_fn_a 0 0 [] [((SStart, None, None), CbUnsub 2);
+                           ((SStart, None, None), CbSub 3 3 (pats_fun []) None)] in
+  let b := mk_fn_a 1 1 [] [((SEvent, None, Some 1), CbUnsub 1)] in
+  let c := mk_fn 2 2 [] in
+  [SetIgnore true; Subscribe a NAll; Subscribe b NAll; Subscribe c NAll;
+   RunCall [] [POpen; PEvent; PEvent; PClose]].
+
+Example C19_nonvacuous_mutating :
+  finding_C18_a C19_example_mutating = false /\
+  nth 4 (run_hist C19_example_mutating) ONone =
+    OCall [E (DStart 0) [(0, false); (1, false); (2, false)];
+           E (DDescriptor 0) [(0, false); (1, false); (3, false)];
+           E (DEvent 0 1) [(0, false); (1, false); (3, false)];
+           E (DEvent 0 2) [(0, false); (3, false)];
+           E (DStop 0 true) [(0, false); (3, false)]] [] Done.
 Proof. split; vm_compute; reflexivity. Qed.
